@@ -1,11 +1,16 @@
 """C15 bump advances to a valid position or panics without corrupting the lexer."""
 from props import rt
 
+ENGINE = 'mirfacts+genscan+witness'
+
 EXPLANATION = ('Static check-before-commit rule on the type-checked MIR of Lexer::bump in three build configurations '
                '(default, release-like arithmetic, forbid_unsafe): every store to a lexer field is dominated by '
                'usize::checked_add and by the true edge of Source::is_boundary applied to the very value stored, and no '
                'panic is reachable after a store; plus the shape of the three is_boundary implementations and the closed '
-               'writer set of token_end. Holds for every n, position and source because it is a statement about all paths of the code.')
+               'writer set of token_end. Holds for every n, position and source because it is a statement about all paths of the code. '
+               'On the generated lexers of the corpus (both back ends): after a callback (which may have bumped) the Skip arm re-reads the lexer\'s own position '
+               '(lex.trivia(); offset = lex.offset(); context = None; -> root) and no generated statement outside the callback moves the span, so a successful bump '
+               'is never followed by a stale restart offset (start > end).')
 
 
 def run(ctx, rep):
@@ -19,5 +24,15 @@ def run(ctx, rep):
     if ctx.tier == 'thorough':
         rt.rule_witnesses(rep, ctx)
     rt.rt_controls(rep, ctx, ['M-C15a', 'M-C15b'])
+    # after a callback's successful bump the generated code continues from the lexer's own position: the Skip arm is
+    # lex.trivia(); offset = lex.offset(); context = None; -> root (a restart offset remembered from before the callback
+    # would put token_start behind a stale offset and yield a span whose start exceeds its end), and no generated
+    # statement outside the callback moves the span
+    from props import gen
+    cfgs_g = gen.configs(ctx)
+    gen.base_checks(ctx, rep, cfgs_g)
+    gen.rule_action_dispatch(ctx, rep, cfgs_g)
+    gen.rule_leaf_arms(ctx, rep, cfgs_g)
+    gen.controls(ctx, rep, ['G9c'])
     rep.trusted += ['rustc nightly MIR construction', 'engines/mirfacts', 'str::is_char_boundary (std) rejects index > len']
     rep.assumptions += ['LexerInternal::end / end_to_boundary are a trusted (doc(hidden)) interface for generated code; the property speaks of bump']
